@@ -76,6 +76,9 @@ Definition add (w : width) (m o : masset) : masset :=
   | None => if has_entry (data_of o) then Some (add_pmap w [] (data_of o)) else None
   end.
 
+(* a sequence of Adds into one accumulator *)
+Definition add_seq (w : width) (a : masset) (xs : list masset) : masset := fold_left (add w) xs a.
+
 (* normalize(): a fresh map with the non-zero entries; policies without any are absent *)
 Definition nonzero (na : bytes * Z) : bool := negb (snd na =? 0).
 Definition norm_amap (am : amap) : amap := filter nonzero am.
@@ -246,7 +249,10 @@ Inductive case :=
 | CCmp (a b : masset) (r : bool)                (* a.Compare(&b) = r *)
 | CAsset (a : masset) (p n : bytes) (q : Z)     (* a.Asset(p, n) = q *)
 | CEnc (a : masset) (bs : bytes)                (* cbor.Encode(&a) = bs *)
-| CDec (it : item) (r : option (masset * bool)). (* UnmarshalCBOR(enc it): error, or data and duplicate flag *)
+| CDec (it : item) (r : option (masset * bool)) (* UnmarshalCBOR(enc it): error, or data and duplicate flag *)
+| CSeq (w : width) (start : masset) (xs : list masset) (r : masset).
+    (* acc := start; for x in xs { acc.Add(&x) } left acc = r, where the x are
+       long-lived operand objects shared between several accumulators *)
 
 Definition check_case (c : case) : bool :=
   match c with
@@ -254,6 +260,7 @@ Definition check_case (c : case) : bool :=
   | CCmp a b r => Bool.eqb (compare a b) r
   | CAsset a p n q => qty a p n =? q
   | CEnc a bs => bytes_eqb (enc (enc_ma a)) bs
+  | CSeq w a xs r => masset_eqb (add_seq w a xs) r
   | CDec it r =>
       match dec_ma it, r with
       | None, None => true
